@@ -201,7 +201,8 @@ def run(ctx):
             cov.update(evaluations=1, distinct_nontrivial=0)
             return
         # ---- spec -> code
-        for idx, c in enumerate(MC[ctx.tier]):
+        only = os.environ.get("VERIF_C12_ONLY", "")   # debugging aid: "random" skips the TLC-generated part
+        for idx, c in enumerate([] if only == "random" else MC[ctx.tier]):
             scns = {}
 
             def on_scn(kind, o):
@@ -283,7 +284,7 @@ def run(ctx):
             cfgcov["failing"] = len(failing)
 
         # ---- vacuity of the replayed part (skipped when violations were found: failing scenarios are not counted)
-        if not ctx.violations:
+        if not ctx.violations and only != "random":
             want = dict(kind={"leaf", "internal"}, sz={0, 1, 399, 400}, dele={True, False}, sib={"--", "L-", "-R", "LR"},
                         stale={True, False}, keys={"small", "wide"}, fetch={"warm", "cold"},
                         perm={"identity", "non-identity", "internal-mid"}, seq={"fetch-after-store-elsewhere", "overwrite", "adjacent"},
@@ -326,7 +327,9 @@ def run(ctx):
             if reached is None:
                 raise vlib.Undecided("PageCodecTrace pages=%d: invariant %s failed on the observed run but the position is unknown" % (pages, res.violated))
             # locate the trace and the event, re-run that driver with a full dump of the event
-            pos, which = reached, 0
+            # IsEvent records l + 1 as soon as the event kind matches, i.e. also for the event whose other conjuncts fail:
+            # the rejected event is number reached - 1 (1-based line of the concatenated trace)
+            pos, which = reached - 1, 0
             while which < len(parts) and pos > parts[which].count("\n"):
                 pos -= parts[which].count("\n")
                 which += 1
